@@ -1,11 +1,49 @@
 (* C06 -- Redactable renderings are well-formed and congruent with plain ones.
-   Statements only; proofs in Proofs/RedactFacts.v.  Proved so far on the redact
-   model for ASCII arguments without newline (no marker can start inside them):
-   the printed argument is well-formed and stripping its markers gives the
-   argument back.  All byte contents and the whole engine are decided on every
-   run by the correspondence stream and the marker scanner on the implementation
-   (their proof is listed as missing in the evidence). *)
-From Errv Require Import Base.Str Redact.Markers Redact.Buffer Proofs.RedactFacts.
+   Statements only; proofs in Proofs/RedactWf.v, Proofs/RedactFacts.v.  Proved on
+   the model of cockroachdb/redact: every printf call is well-formed for ARBITRARY
+   byte contents of its arguments; for ASCII arguments the exact shape and the
+   congruence with the plain text.  The composition of the printed pieces by the
+   formatting engine (line splitting, entry layout) is decided on every run by the
+   byte-exact correspondence on hostile strings and the marker scanner on the
+   implementation (its proof is listed as missing in the evidence). *)
+From Errv Require Import Base.Str Redact.Markers Redact.Buffer Proofs.RedactFacts Proofs.RedactWf.
+
+(* ---- for ARBITRARY BYTES (marker bytes, newlines anywhere, NUL, invalid or
+   truncated UTF-8), proofs in Proofs/RedactWf.v ---- *)
+
+(* an argument printed as unsafe / as safe is well-formed, whatever it contains *)
+Theorem C06_unsafe_arg_wf : forall s, wf_red (sprint_pieces [PUnsafe s]) = true.
+Proof. exact wf_unsafe. Qed.
+Print Assumptions C06_unsafe_arg_wf.
+
+Theorem C06_safe_arg_wf : forall s,
+  wf_red (sprint_pieces [PSafe s]) = true /\ has_markers (sprint_pieces [PSafe s]) = false.
+Proof. intro s. split; [apply wf_safe | apply safe_no_markers]. Qed.
+Print Assumptions C06_safe_arg_wf.
+
+(* any printf call of the model: literals, safe and unsafe arguments with arbitrary
+   bytes, and nested redactable strings that are themselves outputs of the printer
+   ([raw_ok]: well-formed and not ending, before any trailing marker, in a dangling
+   E2 / E2 80): the result is well-formed, and again a valid nested string *)
+Theorem C06_printf_wf : forall ps, pieces_ok ps ->
+  wf_red (sprint_pieces ps) = true /\ raw_ok (sprint_pieces ps).
+Proof. intros ps H. split; [now apply wf_pieces | now apply sprint_raw_ok]. Qed.
+Print Assumptions C06_printf_wf.
+
+(* the hypothesis on nested redactable strings is needed -- and the real
+   cockroachdb/redact v1.1.5 behaves like the model here (checked: Sprintf("%s%s",
+   RedactableString("‹\xe2\x80›"), "\xbaa").Redact() = "‹×›a›"): a finding about the
+   dependency, outside this repository; the errors library only nests strings its
+   own printer produced (C06_printf_wf closes that loop) or received from a peer *)
+Theorem C06_nested_condition_needed :
+  let ps := [PRaw (m_start ++ [226; 128] ++ m_end); PUnsafe [186; 97]] in
+  Forall (fun p => match p with PRaw r => wf_red r = true | _ => True end) ps
+  /\ wf_red (sprint_pieces ps) = false
+  /\ redact (sprint_pieces ps) = m_redacted ++ [97] ++ m_end.
+Proof. exact wf_pieces_stated_false_2. Qed.
+Print Assumptions C06_nested_condition_needed.
+
+(* ---- ASCII arguments: the exact shape ---- *)
 
 Theorem C06_unsafe_arg_wf_partial : forall s,
   s <> [] -> ascii s = true -> no_nl s = true -> wf_red (sprint_pieces [PUnsafe s]) = true.
